@@ -98,6 +98,7 @@ func (p *c05) Cases(tier string, emit func(interface{})) {
 	emit(c05Case{Kind: "identityref2", Base: "identityref"})
 	emit(c05Case{Kind: "binary-length", Base: "binary"})
 	emit(c05Case{Kind: "union", Base: "union"})
+	emit(c05Case{Kind: "union2", Base: "union"})
 }
 
 // ---------------------------------------------------------------- reference
@@ -242,6 +243,9 @@ func c05Module(c c05Case) (text string) {
 		sb.WriteString("  identity b1; identity b2; identity unrelated; identity only1 { base b1; } identity only2 { base b2; } identity deep1 { base only1; } identity both { base b1; base b2; } identity both2 { base both; }\n  leaf x { type identityref { base b1; base b2; } }\n  leaf-list xs { type identityref { base b1; base b2; } }\n")
 	case "union":
 		sb.WriteString("  leaf x { type union { type int32 { range \"0..10\"; } type string { length \"2\"; } } }\n  leaf-list xs { type string; }\n")
+	case "union2":
+		// members that hold declared names
+		sb.WriteString("  identity base-id; identity other; identity id-a { base base-id; }\n  leaf x { type union { type enumeration { enum a; enum b; } type bits { bit p; bit q; } type identityref { base base-id; } type int8; } }\n  leaf-list xs { type string; }\n")
 	}
 	sb.WriteString("  leaf other { type string; }\n}")
 	return sb.String()
@@ -535,6 +539,31 @@ func c05OtherCands(c c05Case, m *meta.Module) []c05Cand {
 			out = append(out, c05Cand{raw: s, json: q(s), xml: s, typed: val.String(s), accept: false, class: "string-member-wrong-length"})
 		}
 		out = append(out, c05Cand{raw: true, json: "true", accept: false, class: "no-member-kind"})
+	case "union2":
+		// typed values are handed to Set; SetValue and the documents get the text
+		tv := func(v val.Value, text string, ok bool, class string) {
+			cd := c05Cand{raw: text, json: q(text), xml: text, typed: v, accept: ok, class: class}
+			if !ok {
+				// the text of a refused typed value may be the text of another member
+				cd.raw, cd.json, cd.xml = v, "", ""
+			}
+			out = append(out, cd)
+		}
+		tv(val.Enum{Id: 0, Label: "a"}, "a", true, "declared-typed-enum")
+		tv(val.Enum{Id: 99, Label: "zzz"}, "", false, "undeclared-typed-enum")
+		tv(val.Enum{Id: 1, Label: "a"}, "", false, "typed-enum-name-disagrees-with-value")
+		tv(val.Bits{Labels: []string{"p"}, Positions: 1}, "p", true, "declared-typed-bits")
+		tv(val.Bits{Labels: []string{"zz"}, Positions: 1 << 9}, "", false, "undeclared-typed-bits")
+		tv(val.IdentRef{Label: "id-a"}, "id-a", true, "derived-typed-identity")
+		tv(val.IdentRef{Label: "other"}, "", false, "not-derived-typed-identity")
+		tv(val.Int8(5), "5", true, "int-member")
+		for _, good := range []string{"a", "b", "p q", "id-a", "5"} {
+			out = append(out, c05Cand{raw: good, json: q(good), xml: good, accept: true, class: "text-of-a-member"})
+		}
+		// (the empty text is the bits value with no bit set)
+		for _, bad := range []string{"zzz", "other", "p zz", "300", "A"} {
+			out = append(out, c05Cand{raw: bad, json: q(bad), xml: bad, accept: false, class: "text-of-no-member"})
+		}
 	}
 	return out
 }
@@ -750,7 +779,7 @@ func (p *c05) Run(raw json.RawMessage) eng.Result {
 			if c.Kind == "range" || c.Kind == "length" || c.Kind == "pattern" {
 				trials = append(trials, trial{"kl", []c05Cand{cand}, "/list-key"})
 			}
-			if good != nil && c.Kind != "bits" && c.Kind != "union" {
+			if good != nil && c.Kind != "bits" && c.Kind != "union" && c.Kind != "union2" {
 				// leaf-list: the candidate alone, and among good elements in each position
 				trials = append(trials, trial{"xs", []c05Cand{cand}, "/leaf-list-only"}, trial{"xs", []c05Cand{cand, *good, *good}, "/leaf-list-first"}, trial{"xs", []c05Cand{*good, cand, *good}, "/leaf-list-middle"}, trial{"xs", []c05Cand{*good, *good, cand}, "/leaf-list-last"})
 			}
